@@ -137,6 +137,10 @@ func TestVerifC02(t *testing.T) {
 			each(regs)
 		}
 	})
+	// the sub-page lattice: region start and end at every combination of offsets inside their pages, <=2 regions
+	vfLayoutsSharded([]uint64{0x100000}, vfPMMShapesHT([]uint64{0, 1, 2}, []uint64{0}, vfSubPage, vfSubPage, []uint32{1, 2}), 2, run.Mine, func(regs []vfRegion) {
+		vfPMMConfigs(regs, []int{0}, []uint64{0, 0x10}, func(cfg vfConfig) { vfC02Check(run, cfg) })
+	})
 	if run.Thorough() {
 		shapes4 := vfPMMShapes([]uint64{0, 1, 2}, []uint64{0, 4096}, []uint64{0}, []uint32{1, 2})
 		vfLayoutsSharded([]uint64{0, 0x100000}, shapes4, 4, run.Mine, func(regs []vfRegion) {
@@ -145,6 +149,6 @@ func TestVerifC02(t *testing.T) {
 			}
 		})
 	}
-	run.Finish(true, fmt.Sprintf("all memory maps of <=2 regions (full shape alphabet: frames{0,1,2,3} x gaps{0,page,0x800} x head/tail skew x types %v x 3 bases), 3 regions (reduced in quick), 4 regions (thorough, aligned); every kernel placement x end skew {0,0x10,0xfff}; allocations to exhaustion; replay of every prefix length", types),
+	run.Finish(true, fmt.Sprintf("all memory maps of <=2 regions (full shape alphabet: frames{0,1,2,3} x gaps{0,page,0x800} x head/tail skew x types %v x 3 bases), 3 regions (reduced in quick), region start/end offsets over the sub-page lattice {0,1,0x400,0x800,0xc00,0xfff}^2 for <=2 regions, 4 regions (thorough, aligned); every kernel placement x end skew {0,0x10,0xfff}; allocations to exhaustion; replay of every prefix length", types),
 		"distinct by configuration; non-trivial if at least two frames were delivered")
 }
